@@ -19,6 +19,10 @@ def setup():
     except MachineryError:
         build(["e1"])
     build(["e2"])
+    try:
+        build(["e1"], features=["e1/priv_access"], profile="release")
+    except MachineryError:
+        build(["e1"], profile="release")
     for tool in ("llvm-mc-14",):
         r = subprocess.run(["which", tool], capture_output=True)
         if r.returncode != 0:
@@ -143,12 +147,54 @@ def hist_family(prop, tier, runs, crash_phases, crash_note, conform, assumptions
     return finish(prop, tier, t0, cov, viols, COMMON_ASSUMPTIONS + assumptions_extra, mi)
 
 
+def wide_lifetimes(prop, take):
+    """Wide lifetimes (family `wide`): k installations on k distinct synthetic targets in one injector
+    lifetime, every k up to the bound x 3 orders x {distinct, with repeated targets} x {scope exit,
+    unwinding} x {16-byte, 128-byte pitch}; mounted and unmodified crate."""
+    def run(tier, mi):
+        kmax = 56 if tier == "quick" else 500
+        viols, steps, lifetimes, refused = [], 0, 0, 0
+        for b in ("e3", "e3real"):
+            outs = run_engine_sharded(bin_path(b), ["wide", "--kmax", str(kmax)], NCPU, timeout=3000)
+            for o in outs:
+                steps += o["steps"]
+                lifetimes += o["lifetimes"]
+                refused += o["refused_lifetimes"]
+                counts = {(c["prop"], c["key"]): c["count"] for c in o["violation_counts"]}
+                for v in o["violations"]:
+                    if v["prop"] in take:
+                        one = {"key": v["key"], "what": v["what"] + f" ({'mounted' if b == 'e3' else 'unmodified'} crate)", "engine": "e3", "args": ["wide", "--kmax", str(kmax)], "case": {"history": v["history"], "wide": v["wide"]}}
+                        viols.append(one)
+                        n = counts.pop((v["prop"], v["key"]), 0)
+                        viols += [dict(one) for _ in range(max(0, min(n, 200) - 3))]
+        if lifetimes < 100:
+            raise MachineryError("vacuous: wide family ran fewer than 100 lifetimes")
+        return viols, {"states": lifetimes, "transitions": steps, "wide_lifetimes": lifetimes, "wide_lifetimes_cut_short_by_a_refused_installation": refused, "wide_bound": f"k <= {kmax} installations alive in one lifetime x 3 orders x repeats x ending x pitch; mounted and unmodified crate"}
+    return run
+
+
+def chain_extras(*fs):
+    def run(tier, mi):
+        viols, cov = [], {}
+        for f in fs:
+            v, c = f(tier, mi)
+            viols += v
+            for k, x in c.items():
+                if k in ("states", "transitions") and isinstance(x, int):
+                    cov[k] = cov.get(k, 0) + x
+                else:
+                    cov[k] = x
+        return viols, cov
+    return run
+
+
 def check_c02(tier):
     runs = [(["--fs"], 4, False), (["--fs"], 5, True)] if tier == "quick" else [(["--fs"], 5, False), (["--fs"], 7, True)]
     return hist_family("C02", tier, runs, crash_phases=(1, 2),
                        crash_note="A process death while calling functions or after the injector went away counts as a violation of C02.",
                        conform=(["--fs"], 4 if tier == "thorough" else 3, False),
-                       assumptions_extra=["observation calls after every operation do not themselves change state (targets and fakes are pure)"])
+                       assumptions_extra=["observation calls after every operation do not themselves change state (targets and fakes are pure)"],
+                       extra=wide_lifetimes("C02", ("C02", "*")))
 
 
 def check_c03(tier):
@@ -179,7 +225,7 @@ def c12_cycles(tier, mi):
 
 def check_c12h(tier):
     runs = [(["--fs"], 4, False)] if tier == "quick" else [(["--fs"], 5, False)]
-    return hist_family("C12", tier, runs, extra=c12_cycles, crash_phases=(),
+    return hist_family("C12", tier, runs, extra=chain_extras(c12_cycles, wide_lifetimes("C12", ("C12",))), crash_phases=(),
                        crash_note="Process deaths are left to C01/C02 (counted as undecided here).",
                        conform=(["--fs"], 3, False),
                        assumptions_extra=["trampoline mappings are tracked at the mmap/munmap interface of the crate (vlibc), which is its only way to map memory on Linux"])
@@ -490,7 +536,12 @@ def e1_family(prop, tier, check, take_props, crash_is_violation, need_tags, assu
             # the same domain against a build without overflow checks (wrapped arithmetic of release builds)
             cname, prof = c[:-8], "release"
         m1, reduced = e1_run(cname, tier, profile=prof)
-        m1["_check"] = cname
+        m1["_check"] = c
+        if prof == "release":
+            # same keys as the dev-profile run (one finding, whichever profile shows it); the profile
+            # is carried in the replay arguments and in the description
+            for v in m1["violations"]:
+                v["what"] += " (mounted crate built with the release profile: no debug assertions, no overflow checks)"
         ms.append(m1)
     m = e1_merge(ms)
     viols = []
@@ -596,21 +647,21 @@ def check_c10(tier):
 
 
 def check_c15(tier):
-    return e1_family("C15", tier, "c15", ("C15",), True,
+    return e1_family("C15", tier, ["c15", "c15@release"], ("C15",), True,
                      ["installed", "mac:adrp-add-br", "mac:direct-branch"],
                      E1_ASSUME + ["no AArch64 hardware: the verdict is the A64 abstract machine's; macOS common.rs is not compiled, the macOS entry encoder is"],
                      "states = AArch64 installations / encoder calls judged (trampoline: every 16-bit value in every chunk position x 4 backgrounds + boundary cross product; entry: word-aligned displacements through the real allocator path, beyond-window displacements through the private encoder; macOS ADRP/ADD/BR encoder over page differences x low-12 boundary values)")
 
 
 def check_c16(tier):
-    return e1_family("C16", tier, "c16", ("C16",), True,
+    return e1_family("C16", tier, ["c16", "c16@release"], ("C16",), True,
                      ["installed:A32", "installed:T32-0", "installed:T32-2"],
                      E1_ASSUME + ["no 32-bit ARM hardware: the verdict is the A32/T32 abstract machine's"],
                      "states = 32-bit ARM installations judged: 3 entry cases x in-page positions (incl. page-straddling) x fake addresses (each byte exhaustively against 3 backgrounds, both instruction-set states) x 3 target bases")
 
 
 def check_c11(tier):
-    return e1_family("C11", tier, "c11", ("C11",), True,
+    return e1_family("C11", tier, ["c11", "c11@release"], ("C11",), True,
                      ["installed", "refused", "full-scan-mmap-calls"],
                      E1_ASSUME,
                      "states = allocator scans judged: back-end x page size x target address class x in-page offset x neighbourhood layout (empty, full, full except one free page at each listed offset) x single/double deviations of the kernel's answers (MAP_FAILED, in-window page, far page)")
@@ -815,11 +866,13 @@ def replay(pid, path):
         print("[vcheck] replay: no violation")
         return 0
     if eng == "e1":
+        prof = "release" if case["args"][0].endswith("@release") else "dev"
+        eargs = [case["args"][0].split("@")[0]] + case["args"][1:]
         try:
-            build(["e1"], features=["e1/priv_access"])
+            build(["e1"], features=["e1/priv_access"], profile=prof)
         except MachineryError:
-            build(["e1"])
-        r = subprocess.run([bin_path("e1")] + case["args"] + ["--replay", path], capture_output=True, text=True, cwd=WORK, env=env_offline())
+            build(["e1"], profile=prof)
+        r = subprocess.run([bin_path("e1", prof)] + eargs + ["--replay", path], capture_output=True, text=True, cwd=WORK, env=env_offline())
         if r.returncode != 0:
             print(f"MACHINERY-ERROR replay engine e1 exited {r.returncode}: {r.stderr[-500:]}")
             return 2
